@@ -90,7 +90,13 @@ func (cq *commitQueue) acquireItem() bool {
 			return true
 		}
 		if atomic.LoadUint32(&cq.closed) == 1 {
-			if atomic.LoadInt64(&cq.queueLen) == 0 && atomic.LoadInt64(&cq.inflight) == 0 {
+			// Load inflight before queueLen: once inflight is 0 every enqueuer that got
+			// past its closed check has finished (push, queueLen++, token), and later
+			// ones see closed, so a queueLen of 0 read afterwards is final. In the other
+			// order an enqueuer could do queueLen++, release its token and leave between
+			// the two loads: the worker exited with that request still in the ring, its
+			// caller blocked in req.Wait() for ever and Close returned without it.
+			if atomic.LoadInt64(&cq.inflight) == 0 && atomic.LoadInt64(&cq.queueLen) == 0 {
 				return false
 			}
 			time.Sleep(100 * time.Microsecond)
